@@ -397,7 +397,27 @@ func (p *printer) checkText(s string) error {
 	return nil
 }
 
+// node prints one node; a node carrying "padnl": k gets k newlines just inside its opening delimiter
 func (p *printer) node(it *item) (string, error) {
+	s, err := p.node1(it)
+	if err != nil {
+		return "", err
+	}
+	if k := jint(it.node, "padnl"); k > 0 {
+		for _, open := range []string{p.sp.Delims[0], p.sp.Delims[2]} {
+			if strings.HasPrefix(s, open) {
+				at := len(open)
+				if len(s) > at && s[at] == '-' {
+					at++
+				}
+				return s[:at] + strings.Repeat("\n", k) + s[at:], nil
+			}
+		}
+	}
+	return s, nil
+}
+
+func (p *printer) node1(it *item) (string, error) {
 	n := it.node
 	sp := p.sp.Sp
 	switch jstr(n, "t") {
